@@ -145,3 +145,60 @@ def clean_cache(max_mb=2000):
                 os.remove(p)
             except OSError:
                 pass
+
+
+def compile_objs_driver(driver_cpp_text, repo_sources, sanitize=True, opt='-O1'):
+    """like compile_driver, but every /repo source is compiled to its own (cached) object and symbols that none of the
+    linked objects defines are resolved to trapping weak stubs - for classes whose translation unit references parts of
+    libawkward that cannot be built here (never executed on the replayed path; executing one traps)."""
+    srcs = [repo_path(s) for s in repo_sources]
+    flags = ['-std=c++11', opt, '-g'] + (['-fsanitize=address,undefined', '-fno-omit-frame-pointer',
+                                          '-fno-sanitize-recover=undefined'] if sanitize else []) + DEFS
+    os.makedirs(CACHE, exist_ok=True)
+    h = hashlib.sha256(driver_cpp_text.encode()).hexdigest()[:16]
+    out = os.path.join(CACHE, 'drvo_%s_%s' % (h, _key(srcs, flags)))
+    if os.path.exists(out):
+        return out
+    objs = []
+    from concurrent.futures import ThreadPoolExecutor
+
+    def one(sp):
+        o = os.path.join(CACHE, 'obj_%s_%s.o' % (os.path.basename(sp).replace('.cpp', ''), _key([sp], flags)))
+        if not os.path.exists(o):
+            tmp = o + '.%d.tmp' % os.getpid()
+            r = subprocess.run([CXX] + flags + _inc() + ['-c', sp, '-o', tmp], capture_output=True, text=True)
+            if r.returncode != 0:
+                raise RuntimeError('object build failed for %s:\n%s' % (sp, r.stderr[-2000:]))
+            os.replace(tmp, o)
+        return o
+    with ThreadPoolExecutor(8) as ex:
+        objs = list(ex.map(one, srcs))
+    d = tempfile.mkdtemp(prefix='vfdrvo', dir=CACHE)
+    try:
+        dp = os.path.join(d, 'driver.cpp')
+        with open(dp, 'w') as f:
+            f.write(driver_cpp_text)
+        dobj = os.path.join(d, 'driver.o')
+        r = subprocess.run([CXX] + flags + _inc() + ['-c', dp, '-o', dobj], capture_output=True, text=True)
+        if r.returncode != 0:
+            raise RuntimeError('driver build failed:\n' + r.stderr[-3000:])
+        allobjs = objs + [dobj]
+        und = subprocess.run(['nm', '-u'] + allobjs, capture_output=True, text=True).stdout
+        dfn = subprocess.run(['nm', '--defined-only'] + allobjs, capture_output=True, text=True).stdout
+        undef = set(l.split()[-1] for l in und.splitlines() if ' U ' in l)
+        defined = set(l.split()[-1] for l in dfn.splitlines() if len(l.split()) == 3)
+        need = sorted(x for x in undef - defined if 'awkward' in x)
+        sp = os.path.join(d, 'stubs.s')
+        with open(sp, 'w') as f:
+            f.write('.section .note.GNU-stack,"",@progbits\n.text\n')
+            for x in need:
+                f.write('.weak %s\n%s:\n  ud2\n' % (x, x))
+        tmp = out + '.%d.tmp' % os.getpid()
+        r = subprocess.run([CXX] + [f for f in flags if f.startswith('-fsanitize') or f.startswith('-fno-omit')] + allobjs + [sp, '-o', tmp],
+                           capture_output=True, text=True)
+        if r.returncode != 0:
+            raise RuntimeError('link failed:\n' + r.stderr[-3000:])
+        os.replace(tmp, out)
+    finally:
+        shutil.rmtree(d, ignore_errors=True)
+    return out
